@@ -64,6 +64,46 @@ def run(ctx: Ctx):
     cover = ctx.func("dlx", "_cover")
     uncover = ctx.func("dlx", "_uncover")
     api = ctx.func("dlx", "solve_exact_cover")
+    # ---- O2 (shape-independent part, decided before any search anchor is needed): wherever a closure of
+    # solve_exact_cover covers a sequence of columns in a loop and uncovers it in another, the second loop runs the
+    # sequence backwards - a ring walked right is undone walking left, a list walked forwards is undone reversed
+    n_pairs = 0
+    for q, g in sorted(ctx.repo.module("dlx").funcs.items()):
+        if not q.startswith("solve_exact_cover."):
+            continue
+
+        def sig(loop):
+            if isinstance(loop, ast.For):
+                it = loop.iter
+                if isinstance(it, ast.Name):
+                    return ("list", it.id, "fwd")
+                if isinstance(it, ast.Call) and ast.unparse(it.func) == "reversed" and len(it.args) == 1 and isinstance(it.args[0], ast.Name):
+                    return ("list", it.args[0].id, "rev")
+                if isinstance(it, ast.Subscript) and isinstance(it.value, ast.Name) and ast.unparse(it.slice) == "::-1":
+                    return ("list", it.value.id, "rev")
+                return ("list", ast.unparse(it), "?")
+            for v, adv, lp in _loops(g.node):
+                if lp is loop:
+                    anchor = ast.unparse(loop.test.comparators[0])
+                    return ("ring", anchor, adv)
+            return None
+
+        cov, unc = [], []
+        for lp in [n for n in own_nodes(g.node) if isinstance(n, (ast.For, ast.While))]:
+            direct = [c for st_ in lp.body for c in ast.walk(st_) if isinstance(c, ast.Call) and isinstance(c.func, ast.Name) and c.func.id in ("_cover", "_uncover")]
+            inner_loops = [x for st_ in lp.body for x in ast.walk(st_) if isinstance(x, (ast.For, ast.While))]
+            direct = [c for c in direct if not any(c in list(ast.walk(il)) for il in inner_loops)]
+            for c in direct:
+                (cov if c.func.id == "_cover" else unc).append((sig(lp), lp))
+        for sc, lc_ in cov:
+            for su, lu_ in unc:
+                if sc is None or su is None or sc[:2] != su[:2]:
+                    continue
+                n_pairs += 1
+                ctx.touch(g)
+                opposite = {"fwd": "rev", "rev": "fwd", "right": "left", "left": "right", "down": "up", "up": "down"}
+                ctx.ob("C07-O2", "R15 INVERSE-PAIR", g, f"{q.split('.', 1)[1]}: the columns covered over `{sc[1]}` ({sc[2]}) are uncovered in the reverse order", opposite.get(sc[2]) == su[2], f"cover runs {sc[2]}, uncover runs {su[2]}: uncovering in covering order relinks a column while later covers still hide part of its rows - sizes and links end up corrupted, covers go missing or INFEASIBLE is reported for a matrix that has one", node=lu_)
+    ctx.floor("cover/uncover loop pairs in the search closures", n_pairs, 1)
     search = ctx.func("dlx", "solve_exact_cover.search")
     build = ctx.func("dlx", "_build_links")
 
@@ -134,19 +174,44 @@ def run(ctx: Ctx):
     ctx.require(len(row_loops) == 1, "row loop (walking down the chosen column) not found")
     rv, _, rloop = row_loops[0]
     rhead = cfg.stmt_node_containing(rloop.test)
-    cov_loops = [l for l in _loops(rloop) if l[1] == "right" and "_cover" in ast.unparse(l[2])]
-    unc_loops = [l for l in _loops(rloop) if l[1] == "left" and "_uncover" in ast.unparse(l[2])]
-    ctx.ob("C07-O2", "R16 PAIRED-EFFECTS", search, "row columns are covered walking right and uncovered walking left (LIFO)", len(cov_loops) == 1 and len(unc_loops) == 1, f"cover walks {[l[1] for l in _loops(rloop) if '_cover(' in ast.unparse(l[2])]}, uncover walks {[l[1] for l in _loops(rloop) if '_uncover(' in ast.unparse(l[2])]}", node=rloop)
-    if cov_loops and unc_loops:
-        ch = cfg.stmt_node_containing(cov_loops[0][2].test)
-        uh = cfg.stmt_node_containing(unc_loops[0][2].test)
+    def _direct(lp, name):
+        inner = [x for st_ in lp.body for x in ast.walk(st_) if isinstance(x, (ast.For, ast.While))]
+        return [c for st_ in lp.body for c in ast.walk(st_) if isinstance(c, ast.Call) and isinstance(c.func, ast.Name) and c.func.id == name and not any(c in list(ast.walk(il)) for il in inner)]
+
+    in_row = [n for n in ast.walk(rloop) if isinstance(n, (ast.For, ast.While)) and n is not rloop]
+    cov_any = [lp for lp in in_row if _direct(lp, "_cover")]
+    unc_any = [lp for lp in in_row if _direct(lp, "_uncover")]
+    ring = {id(l[2]): l for l in _loops(rloop)}
+    list_form = len(cov_any) == 1 and len(unc_any) == 1 and isinstance(cov_any[0], ast.For) and isinstance(unc_any[0], ast.For)
+    if list_form:
+        # list idiom: the row's other columns are collected in one ring walk anchored at the row node, covered in list
+        # order and uncovered in reverse list order (the order itself is C07-O2's first obligation above)
+        lname = cov_any[0].iter.id if isinstance(cov_any[0].iter, ast.Name) else None
+        fill = [l for l in _loops(rloop) if l[1] in ("right", "left") and lname and f"{lname}.append({l[0]}.column)" in ast.unparse(l[2]) and ast.unparse(l[2].test.comparators[0]) == rv]
+        fresh = [x for x in rloop.body if isinstance(x, (ast.Assign, ast.AnnAssign)) and ast.unparse(x.targets[0] if isinstance(x, ast.Assign) else x.target) == lname and ast.unparse(x.value) == "[]"]
+        tv = ast.unparse(cov_any[0].target)
+        okl = len(fill) == 1 and len(fresh) == 1 and f"_cover({tv})" in ast.unparse(cov_any[0]) and f"_uncover({ast.unparse(unc_any[0].target)})" in ast.unparse(unc_any[0]) and lname in names_in(unc_any[0].iter)
+        ctx.ob("C07-O2", "R16 PAIRED-EFFECTS", search, "row columns are collected in one walk around the row (a fresh list per row), covered from the list and uncovered from the same list", okl, "", node=rloop)
+        ch = cfg.stmt_node_containing(cov_any[0].iter)
+        uh = cfg.stmt_node_containing(unc_any[0].iter)
+        cov_anchor = cov_any[0]
+    else:
+        cov_loops = [l for l in _loops(rloop) if l[1] == "right" and "_cover" in ast.unparse(l[2])]
+        unc_loops = [l for l in _loops(rloop) if l[1] == "left" and "_uncover" in ast.unparse(l[2])]
+        ctx.ob("C07-O2", "R16 PAIRED-EFFECTS", search, "row columns are covered walking right and uncovered walking left (LIFO)", len(cov_loops) == 1 and len(unc_loops) == 1, f"cover walks {[l[1] for l in _loops(rloop) if '_cover(' in ast.unparse(l[2])]}, uncover walks {[l[1] for l in _loops(rloop) if '_uncover(' in ast.unparse(l[2])]}", node=rloop)
+        ch = uh = cov_anchor = None
+        if cov_loops and unc_loops:
+            ch = cfg.stmt_node_containing(cov_loops[0][2].test)
+            uh = cfg.stmt_node_containing(unc_loops[0][2].test)
+            cov_anchor = cov_loops[0][2]
+            same_anchor = ast.unparse(cov_loops[0][2].test.comparators[0]) == ast.unparse(unc_loops[0][2].test.comparators[0]) == rv
+            ctx.ob("C07-O2", "R16 PAIRED-EFFECTS", search, "cover and uncover walks share the row node as anchor and (un)cover `node.column`", same_anchor and "_cover(node.column)" in ast.unparse(cov_loops[0][2]) and "_uncover(node.column)" in ast.unparse(unc_loops[0][2]), "", node=cov_loops[0][2])
+    if ch is not None:
         # from the cover loop, the row loop's back edge is reachable only through the uncover loop
         reach = cfg.forward(ch, avoid={uh.id})
-        ctx.ob("C07-O2", "R16 PAIRED-EFFECTS", search, "row covers are undone before the next row is tried", rhead.id not in reach, "", node=cov_loops[0][2])
+        ctx.ob("C07-O2", "R16 PAIRED-EFFECTS", search, "row covers are undone before the next row is tried", rhead.id not in reach, "", node=cov_anchor)
         leaks = [cfg.nodes[i] for i in reach if cfg.nodes[i].kind == "return" and not true_return(cfg.nodes[i])]
-        ctx.ob("C07-O2", "R16 PAIRED-EFFECTS", search, "row covers: only `return True` exits skip the uncover walk", not leaks, "", node=cov_loops[0][2])
-        same_anchor = ast.unparse(cov_loops[0][2].test.comparators[0]) == ast.unparse(unc_loops[0][2].test.comparators[0]) == rv
-        ctx.ob("C07-O2", "R16 PAIRED-EFFECTS", search, "cover and uncover walks share the row node as anchor and (un)cover `node.column`", same_anchor and "_cover(node.column)" in ast.unparse(cov_loops[0][2]) and "_uncover(node.column)" in ast.unparse(unc_loops[0][2]), "", node=cov_loops[0][2])
+        ctx.ob("C07-O2", "R16 PAIRED-EFFECTS", search, "row covers: only `return True` exits skip the uncover walk", not leaks, "", node=cov_anchor)
     push = [cfg.stmt_node_containing(n) for n in own_nodes(search.node) if isinstance(n, ast.Call) and ast.unparse(n.func) == "current.append"]
     pop = [cfg.stmt_node_containing(n) for n in own_nodes(search.node) if isinstance(n, ast.Call) and ast.unparse(n.func) == "current.pop"]
     ctx.require(len(push) == 1, "partial-solution push not found")
@@ -237,6 +302,39 @@ def run(ctx: Ctx):
     agv = GuardView(acfg)
     sites = result_sites(api)
     ctx.floor("Result sites in solve_exact_cover", len(sites), 7)
+    # under find_all the solution field is a list of covers at every site that publishes covers (a bare tuple read as a
+    # list of covers is 'no cover'), without find_all it is one cover
+    parents = {id(c): p_ for p_ in ast.walk(api.node) for c in ast.iter_child_nodes(p_)}
+    n_forms = 0
+    for k, s in enumerate(sites):
+        sol = s.arg("solution")
+        if sol is None or ast.unparse(sol) == "None":
+            continue
+        if isinstance(sol, ast.Name) and sol.id != "solutions":
+            ds = [d.value for d in own_nodes(api.node) if isinstance(d, ast.Assign) and ast.unparse(d.targets[0]) == sol.id]
+            if len(ds) == 1:
+                sol = ds[0]
+        fa = None
+        at0 = agv.guard_atoms(s.node, stable_only=False)
+        if "T:find_all" in at0:
+            fa = True
+        elif "F:find_all" in at0:
+            fa = False
+        par = parents.get(id(s.call))
+        if isinstance(par, ast.IfExp) and ast.unparse(par.test) == "find_all":
+            fa = par.body is s.call
+        forms = []
+        for e in ([sol.body, sol.orelse] if isinstance(sol, ast.IfExp) and ast.unparse(sol.test) == "find_all" else [sol]):
+            forms.append("list" if isinstance(e, ast.List) or ast.unparse(e) == "solutions" else "one")
+        if isinstance(sol, ast.IfExp) and ast.unparse(sol.test) == "find_all":
+            okf = forms == ["list", "one"]
+        elif fa is None:
+            okf = False
+        else:
+            okf = forms == (["list"] if fa else ["one"])
+        n_forms += 1
+        ctx.ob("C07-O6", "R18 table", api, f"Result#{k} publishes a list of covers exactly under find_all", okf, f"solution `{ast.unparse(sol)[:40]}` with find_all {'on' if fa else 'off' if fa is False else 'undetermined'}: a caller that iterates over the covers of an empty matrix gets none, although the empty selection is the one cover", node=s.call)
+    ctx.floor("cover-publishing Result sites", n_forms, 5)
     for k, s in enumerate(sites):
         at = agv.guard_atoms(s.node)
         if "INFEASIBLE" in s.statuses:
@@ -363,7 +461,31 @@ def _t_swap_commuting(tree):
     inner.body[0], inner.body[1] = inner.body[1], inner.body[0]
 
 
+def _list_idiom(tree, undo_iter):
+    g = M.find_func(tree, "solve_exact_cover.search")
+    rl = [n for n in ast.walk(g) if isinstance(n, ast.While) and M.src_is(n.test, "row_node is not min_col")]
+    if not rl:
+        raise M.Skip("row loop not found")
+    body = rl[0].body
+    ci = [i for i, st_ in enumerate(body) if isinstance(st_, ast.While) and M.src_has(st_, "_cover(node.column)")]
+    ui = [i for i, st_ in enumerate(body) if isinstance(st_, ast.While) and M.src_has(st_, "_uncover(node.column)")]
+    if not ci or not ui:
+        raise M.Skip("cover / uncover walks not found")
+    body[ui[0]] = M.stmts(f"for other in {undo_iter}:\n    _uncover(other)")[0]
+    body[ci[0]] = M.stmts("while node is not row_node:\n    others.append(node.column)\n    node = node.right")[0]
+    body.insert(ci[0] + 1, M.stmts("for other in others:\n    _cover(other)\n    covers += 1")[0])
+    body.insert(ci[0] - 1, M.stmts("others = []")[0])
+    for i, st_ in enumerate(list(body)):
+        if isinstance(st_, ast.Assign) and M.src_is(st_, "node = row_node.left"):
+            body.remove(st_)
+
+
+def _v_list_uncover_forward(tree):
+    _list_idiom(tree, "others")
+
+
 VARIANTS = [
+    M.Variant("row columns collected in a list, covered and uncovered in the same order (seed C07-K)", DLX, _v_list_uncover_forward, "C07-O2"),
     M.Variant("uncover walks in cover's direction", DLX, _v_uncover_same_direction, "C07-O1"),
     M.Variant("uncover does not restore the column size", DLX, _v_uncover_no_size, "C07-O1"),
     M.Variant("uncover restores only one vertical link", DLX, _v_uncover_missing_link, "C07-O1"),
